@@ -264,6 +264,15 @@ func rawStringGuarded(s sink) (bool, string) {
 		return false, ""
 	}
 	refs := nonDebugRefs(res)
+	// the literal may be completed by further concatenations (the closing delimiter): follow them to the finished text
+	for depth := 0; depth < 4 && len(refs) == 1; depth++ {
+		bo, ok := refs[0].(*ssa.BinOp)
+		if !ok || bo.Op != token.ADD {
+			break
+		}
+		res = bo
+		refs = nonDebugRefs(res)
+	}
 	if len(refs) == 0 {
 		return false, ""
 	}
@@ -399,6 +408,43 @@ func c13Placeholders(c *Ctx, te *taintEngine) {
 		}
 	}
 	r.Check(okPct, "C13.Q3", key+"#percent", p.Pos(parser.Pos()), "% is doubled exactly when placeholders were found, before they are replaced", why)
+	// every occurrence of a placeholder yields one %v and one recorded variable: the loop over the matches has no skip
+	if pfd, _ := parser.Syntax().(*ast.FuncDecl); pfd != nil && pfd.Body != nil {
+		var loop *ast.RangeStmt
+		ast.Inspect(pfd.Body, func(n ast.Node) bool {
+			if rs, ok := n.(*ast.RangeStmt); ok && loop == nil {
+				loop = rs
+			}
+			return true
+		})
+		if loop == nil {
+			r.Unknown("C13.Q3", key+"#every-occurrence", p.Pos(parser.Pos()), "no loop over the placeholder matches found")
+		} else {
+			var skips []string
+			appends := 0
+			for _, st := range loop.Body.List {
+				switch x := st.(type) {
+				case *ast.IfStmt, *ast.SwitchStmt, *ast.BranchStmt:
+					skips = append(skips, fmt.Sprintf("%T", x))
+				case *ast.AssignStmt:
+					for _, rhs := range x.Rhs {
+						if call, ok := rhs.(*ast.CallExpr); ok {
+							if id, ok := call.Fun.(*ast.Ident); ok && id.Name == "append" {
+								appends++
+							}
+						}
+					}
+				}
+			}
+			ast.Inspect(loop.Body, func(n ast.Node) bool {
+				if bs, ok := n.(*ast.BranchStmt); ok {
+					skips = append(skips, bs.Tok.String())
+				}
+				return true
+			})
+			r.Check(len(skips) == 0 && appends >= 1, "C13.Q3", key+"#every-occurrence", p.Pos(loop.Pos()), "every match is replaced by %v and recorded as a variable, unconditionally", "the loop over the placeholder matches skips or filters some of them ("+strings.Join(skips, ", ")+"): the text replacement puts one %v per occurrence, so a placeholder that is recorded only once leaves later verbs without their argument (shifted values, %!v(MISSING))")
+		}
+	}
 	// the replaced text is the whole match (v[0]) and the recorded variable the capture (v[1])
 	okIdx := false
 	if ix, ok := stripIface(varReplace.Call.Args[1]).(*ssa.UnOp); ok {
